@@ -6,6 +6,8 @@ import (
 	"os"
 	"strings"
 	"time"
+
+	"github.com/ah-naf/borno/vhook"
 )
 
 type NativeClockFn struct{}
@@ -46,12 +48,14 @@ func (n NativeInputFn) Call(i *Interpreter, arguments []interface{}) (interface{
 			return nil, fmt.Errorf("input function's argument must be a string or []rune")
 		}
 	
+		vhook.Stdout("prompt")
 		fmt.Print(prompt)
 	}
 
 	// Read the input from the user
 	reader := bufio.NewReader(os.Stdin)
 	input, err := reader.ReadString('\n')
+	vhook.InputRead(len(input), err != nil)
 	if err != nil {
 		return nil, fmt.Errorf("failed to read input: %v", err)
 	}
